@@ -13,12 +13,28 @@ Fragment (anything else raises TranslateError => "tie broken"):
   ladders     : `if/elif/else` whose branches assign one name (or raise), tests being
                 string (in)equalities / memberships of `self.area_type` and numeric comparisons
   guards      : `if <numeric comparisons joined by or>: raise RuntimeError` followed by `self._x = value`
+
+Equivalent spellings (harness.gen.norm; harmless rewrites reach the same Lean text):
+  * private helpers with a straight-line body (`self._get_fc_in_GHz()`, a static
+    `Cls._term(fc)`, a module-level `_f(x)`) are replaced by the value they return, at any depth of an
+    expression; `log10 = _helper(d)` with a helper that only chooses between `np.log10` and `math.log10` is
+    spliced in and then skipped like the inline `if isinstance(d, Iterable): log10 = ...`
+  * conditional expressions are if/else statements (`log10 = np.log10 if .. else math.log10`,
+    `return 0.0 if .. else 0`); `pow(10, e)` is `10 ** e`
+  * ladders are read in decision-tree normal form: guard clauses / early returns == elif/else chains,
+    `!=` / `not in` tests == the positive test with the branches swapped, `v = e; return v` == `return e`
+  * `for <names> in <literal table>: if <test>: ...; break` + `else: raise` == the unrolled if/elif ladder
+A DIFFERENT ORDER of the tests of a ladder is emitted as written (another Lean term); the theorems about it
+(`Proofs/C13Models.lean`) are proved by cases on the area type and do not depend on the order.
 """
 import ast
 import os
 from decimal import Decimal
 
 from harness.translate import TranslateError, parse_file, find_fn, HEADER, strip_doc
+from harness.gen import norm
+
+norm.extra_pure_calls.update({'dB2Linear', 'linear2dB', 'log10'})
 
 LOGS = {'log10'}
 CMP = {ast.Lt: '<', ast.Gt: '>', ast.LtE: '≤', ast.GtE: '≥'}
@@ -112,12 +128,17 @@ class Expr:
         raise TranslateError('unsupported expression: ' + ast.dump(e)[:160])
 
 
+def is_log_func(e):
+    return isinstance(e, ast.Attribute) and e.attr == 'log10' and isinstance(e.value, ast.Name) and e.value.id in ('np', 'math')
+
+
 def is_log_select(s):
-    """if isinstance(d, Iterable): log10 = np.log10 else: log10 = math.log10"""
+    """if isinstance(d, Iterable): log10 = np.log10 else: log10 = math.log10   (both values must be a log10)"""
     return (isinstance(s, ast.If) and isinstance(s.test, ast.Call)
             and isinstance(s.test.func, ast.Name) and s.test.func.id == 'isinstance'
+            and bool(s.body) and bool(s.orelse)
             and all(isinstance(b, ast.Assign) and isinstance(b.targets[0], ast.Name)
-                    and b.targets[0].id == 'log10' for b in s.body + s.orelse))
+                    and b.targets[0].id == 'log10' and is_log_func(b.value) for b in s.body + s.orelse))
 
 
 def is_warn_only(s):
@@ -136,6 +157,34 @@ def is_warn_only(s):
 
 def is_self_method_call(e):
     return (isinstance(e, ast.Call) and attr_name(e.func) is not None and not e.args and not e.keywords)
+
+
+class Prep:
+    """source normalisation of one module: helper inlining + canonical spellings (see module docstring)"""
+
+    def __init__(self, tree):
+        self.tree = tree
+
+    def fn(self, name, cls=None, inline=True):
+        f = find_fn(self.tree, name, cls)
+        classes = norm.class_chain(self.tree, cls) if cls else []
+        lookup = norm.private_lookup(module=self.tree, classes=classes, skip=('_log10',))   # (_log10: see Expr.tr)
+        f = norm.canon_fn(f)
+        if inline:
+            f = norm.Inliner(lookup, caller_locals=norm.local_names(f)).visit(f)
+        body = []
+        for st in norm.unroll_for_else(norm.hoist_ifexp(strip_doc(f.body))):
+            # `log10 = _helper(d)`: a helper that picks np.log10 / math.log10 becomes the inline if/else
+            sp = None
+            if isinstance(st, ast.Assign) and len(st.targets) == 1 and isinstance(st.targets[0], ast.Name) \
+                    and st.targets[0].id == 'log10' and isinstance(st.value, ast.Call):
+                sp = norm.splice_call(st, lookup)
+                if sp is not None and not all(is_log_func(n.value) for t in sp for n in ast.walk(t)
+                                              if isinstance(n, ast.Assign)):
+                    raise TranslateError('log10 is bound to something that is not np.log10 / math.log10')
+            body += sp if sp is not None else [st]
+        f.body = body
+        return f
 
 
 def gen_straight(fn, lean_name, params, doc):
@@ -199,14 +248,15 @@ def gen_ladder(fn, lean_name, target, str_params, num_params, doc):
     ex = Expr()
 
     def branch(stmts):
-        stmts = [s for s in stmts if not (isinstance(s, ast.Expr) and isinstance(s.value, ast.Constant))]
+        # decision tree: every leaf is `return e` or `raise`
+        stmts = [s for s in stmts if not (isinstance(s, ast.Assign) and isinstance(s.value, (ast.Constant, ast.JoinedStr))
+                                          and isinstance(getattr(s.value, 'value', ''), str))]
         if len(stmts) == 1 and isinstance(stmts[0], ast.If):
             s = stmts[0]
-            if not s.orelse:
+            if not s.orelse or not s.body:
                 raise TranslateError('ladder without else')
             return '(if %s then %s\n   else %s)' % (cond(s.test, ex), branch(s.body), branch(s.orelse))
-        if len(stmts) == 1 and isinstance(stmts[0], ast.Assign) and isinstance(stmts[0].targets[0], ast.Name) \
-                and stmts[0].targets[0].id == target:
+        if len(stmts) == 1 and isinstance(stmts[0], ast.Return) and stmts[0].value is not None:
             return '(.ok %s)' % ex.tr(stmts[0].value)
         if len(stmts) == 1 and isinstance(stmts[0], ast.Raise):
             exc = stmts[0].exc
@@ -216,10 +266,10 @@ def gen_ladder(fn, lean_name, target, str_params, num_params, doc):
             return '(.error .%s)' % name
         raise TranslateError('%s: unsupported ladder branch' % lean_name)
 
-    body = strip_doc(fn.body)
-    if not (len(body) == 2 and isinstance(body[0], ast.If) and isinstance(body[1], ast.Return)
-            and isinstance(body[1].value, ast.Name) and body[1].value.id == target):
-        raise TranslateError('%s: expected `if … ; return %s`' % (lean_name, target))
+    # normal form: `if ..: target = e .. ; return target`, early returns and guard clauses all become one tree
+    body = norm.tail_form(fn.body, True, collapse=True)
+    if not (len(body) == 1 and isinstance(body[0], ast.If) and norm.terminates(body)):
+        raise TranslateError('%s: expected a decision ladder returning %s' % (lean_name, target))
     t = branch([body[0]])
     if sorted(ex.free) != sorted(str_params + num_params):
         raise TranslateError('%s: free variables %s' % (lean_name, sorted(ex.free)))
@@ -265,11 +315,13 @@ def ps7_dispatch_ok(fn, los, nlos):
                 and isinstance(t.comparators[0], ast.Constant) and t.comparators[0].value == k)
 
     def calls(stmts, meth, nargs):
-        return (len(stmts) == 1 and isinstance(stmts[0], ast.Assign) and isinstance(stmts[0].value, ast.Call)
+        # the leaf is `x = self.<meth>(..)` or (early-return spelling) `return self.<meth>(..)`
+        return (len(stmts) == 1 and isinstance(stmts[0], (ast.Assign, ast.Return)) and isinstance(stmts[0].value, ast.Call)
                 and attr_name(stmts[0].value.func) == meth.lstrip('_') and len(stmts[0].value.args) == nargs
                 and (nargs == 1 or (isinstance(stmts[0].value.args[1], ast.Name)
                                     and stmts[0].value.args[1].id == 'num_walls')))
-    for n in ast.walk(fn):
+    tree = ast.Module(body=norm.tail_form(fn.body, True, collapse=True), type_ignores=[])
+    for n in ast.walk(tree):
         if isinstance(n, ast.If) and is_cmp(n.test, ast.Eq, 0) and calls(n.body, los, 1) \
                 and len(n.orelse) == 1 and isinstance(n.orelse[0], ast.If):
             m = n.orelse[0]
@@ -385,19 +437,20 @@ def gen_c13(repo):
     pl = parse_file(os.path.join(repo, 'pyphysim/channels/pathloss.py'))
     ag = parse_file(os.path.join(repo, 'pyphysim/channels/antennagain.py'))
     cv = parse_file(os.path.join(repo, 'pyphysim/util/conversion.py'))
+    Ppl, Pag, Pcv = Prep(pl), Prep(ag), Prep(cv)
     out = []
     # ---- util/conversion.py
-    out.append(gen_straight(find_fn(cv, 'dB2Linear'), 'dB2Linear', ['valueIndB'], 'conversion.dB2Linear'))
-    out.append(gen_straight(find_fn(cv, 'linear2dB'), 'linear2dB', ['valueInLinear'], 'conversion.linear2dB'))
+    out.append(gen_straight(Pcv.fn('dB2Linear'), 'dB2Linear', ['valueIndB'], 'conversion.dB2Linear'))
+    out.append(gen_straight(Pcv.fn('linear2dB'), 'linear2dB', ['valueInLinear'], 'conversion.linear2dB'))
     # ---- PathLossBase plot helper (a public non-setter that touches the policy flags)
     out.append(gen_plot_pattern(find_fn(pl, '_plot_deterministic_path_loss_in_dB_impl', 'PathLossBase')))
     # ---- PathLossGeneral
-    out.append(gen_straight(find_fn(pl, '_calc_deterministic_path_loss_dB', 'PathLossGeneral'),
+    out.append(gen_straight(Ppl.fn('_calc_deterministic_path_loss_dB', 'PathLossGeneral'),
                             'generalDb', ['n', 'C', 'd'], 'PathLossGeneral._calc_deterministic_path_loss_dB'))
-    out.append(gen_straight(find_fn(pl, 'which_distance_dB', 'PathLossGeneral'),
+    out.append(gen_straight(Ppl.fn('which_distance_dB', 'PathLossGeneral'),
                             'generalWhichDb', ['n', 'C', 'PL'], 'PathLossGeneral.which_distance_dB'))
     # ---- PathLossFreeSpace
-    out.append(gen_straight(find_fn(pl, '_calculate_C_from_fc_and_n', 'PathLossFreeSpace'),
+    out.append(gen_straight(Ppl.fn('_calculate_C_from_fc_and_n', 'PathLossFreeSpace'),
                             'fsCalcC', ['fc', 'n'], 'PathLossFreeSpace._calculate_C_from_fc_and_n'))
     init = find_fn(pl, '__init__', 'PathLossFreeSpace')
     names = [a.arg for a in init.args.args][1:]
@@ -432,14 +485,14 @@ def gen_c13(repo):
     out.append(const_def('gpp1N', kws['n'], 'PathLoss3GPP1 exponent'))
     out.append(const_def('gpp1C', kws['C'], 'PathLoss3GPP1 constant'))
     # ---- PathLossMetisPS7
-    out.append(gen_straight(find_fn(pl, '_calc_PS7_path_loss_dB_LOS_same_floor', 'PathLossMetisPS7'),
+    out.append(gen_straight(Ppl.fn('_calc_PS7_path_loss_dB_LOS_same_floor', 'PathLossMetisPS7'),
                             'ps7LosDb', ['fc', 'd'], 'PathLossMetisPS7._calc_PS7_path_loss_dB_LOS_same_floor'))
-    out.append(gen_straight(find_fn(pl, '_calc_PS7_path_loss_dB_NLOS_same_floor', 'PathLossMetisPS7'),
+    out.append(gen_straight(Ppl.fn('_calc_PS7_path_loss_dB_NLOS_same_floor', 'PathLossMetisPS7'),
                             'ps7NlosDb', ['fc', 'd', 'num_walls'],
                             'PathLossMetisPS7._calc_PS7_path_loss_dB_NLOS_same_floor'))
-    out.append(gen_straight(find_fn(pl, '_which_distance_dB_LOS_same_floor', 'PathLossMetisPS7'),
+    out.append(gen_straight(Ppl.fn('_which_distance_dB_LOS_same_floor', 'PathLossMetisPS7'),
                             'ps7LosWhichDb', ['fc', 'PL'], 'PathLossMetisPS7._which_distance_dB_LOS_same_floor'))
-    out.append(gen_straight(find_fn(pl, '_which_distance_dB_NLOS_same_floor', 'PathLossMetisPS7'),
+    out.append(gen_straight(Ppl.fn('_which_distance_dB_NLOS_same_floor', 'PathLossMetisPS7'),
                             'ps7NlosWhichDb', ['fc', 'PL', 'num_walls'],
                             'PathLossMetisPS7._which_distance_dB_NLOS_same_floor'))
     # dispatch on the wall count: `== 0` -> LOS helper, `> 0` -> NLOS helper, else ValueError
@@ -449,18 +502,18 @@ def gen_c13(repo):
                              '_which_distance_dB_NLOS_same_floor')):
         out.append('/-- PathLossMetisPS7.%s dispatches `num_walls == 0` / `> 0` / else ValueError -/\n'
                    'def ps7Dispatch_%s : Bool := %s\n'
-                   % (name, name.strip('_'), 'true' if ps7_dispatch_ok(find_fn(pl, name, 'PathLossMetisPS7'), los, nlos)
+                   % (name, name.strip('_'), 'true' if ps7_dispatch_ok(Ppl.fn(name, 'PathLossMetisPS7', inline=False), los, nlos)
                       else 'false'))
     init = find_fn(pl, '__init__', 'PathLossMetisPS7')
     out.append(const_def('ps7DefaultFc', init.args.defaults[0], 'PathLossMetisPS7() default carrier (MHz)'))
     # ---- PathLossOkomuraHata
     oh = find_cls(pl, 'PathLossOkomuraHata')
-    out.append(gen_ladder(find_fn(pl, '_calc_mobile_antenna_height_correction_factor', 'PathLossOkomuraHata'),
+    out.append(gen_ladder(Ppl.fn('_calc_mobile_antenna_height_correction_factor', 'PathLossOkomuraHata'),
                           'ohA', 'a', ['area_type'], ['fc', 'hms'],
                           'PathLossOkomuraHata._calc_mobile_antenna_height_correction_factor'))
-    out.append(gen_ladder(find_fn(pl, '_calc_K', 'PathLossOkomuraHata'),
+    out.append(gen_ladder(Ppl.fn('_calc_K', 'PathLossOkomuraHata'),
                           'ohK', 'K', ['area_type'], ['fc'], 'PathLossOkomuraHata._calc_K'))
-    out.append(gen_straight(find_fn(pl, '_calc_deterministic_path_loss_dB', 'PathLossOkomuraHata'),
+    out.append(gen_straight(Ppl.fn('_calc_deterministic_path_loss_dB', 'PathLossOkomuraHata'),
                             'ohDb', ['fc', 'hbs', 'a', 'K', 'd'],
                             'PathLossOkomuraHata._calc_deterministic_path_loss_dB (a, K supplied by ohA / ohK)'))
     out.append(gen_setter_guard(oh.body, 'fc', 'ohFcAccepted', 'PathLossOkomuraHata.fc setter accepts the value'))
@@ -474,7 +527,7 @@ def gen_c13(repo):
     if not (isinstance(vals.get('area_type'), ast.Constant) and isinstance(vals['area_type'].value, str)):
         raise TranslateError('default area type not a string literal')
     # ---- AntGainBS3GPP25996
-    init = find_fn(ag, '__init__', 'AntGainBS3GPP25996')
+    init = Pag.fn('__init__', 'AntGainBS3GPP25996')          # (a for/else over a literal table is unrolled)
     ladder = [s for s in init.body if isinstance(s, ast.If)]
     if len(ladder) != 1:
         raise TranslateError('AntGainBS3GPP25996.__init__ pattern changed')
@@ -509,7 +562,7 @@ def gen_c13(repo):
             raise TranslateError('sector parameters not constant')
     out.append('/-- AntGainBS3GPP25996.__init__: (theta_3db, Am, ant_gain) per sector count; `none` = ValueError -/\n'
                'def antParams (sectors : Nat) : Option (α × α × α) :=\n' + '\n'.join(rows) + '\n  none\n')
-    out.append(gen_straight(find_fn(ag, 'get_antenna_gain', 'AntGainBS3GPP25996'),
+    out.append(gen_straight(Pag.fn('get_antenna_gain', 'AntGainBS3GPP25996'),
                             'antGain', ['ant_gain', 'theta_3db', 'Am', 'angle'],
                             'AntGainBS3GPP25996.get_antenna_gain'))
     head = (HEADER % 'pyphysim/channels/pathloss.py, pyphysim/channels/antennagain.py, pyphysim/util/conversion.py'
